@@ -511,6 +511,7 @@ pub fn check(tier: &str, seed: u64) -> i32 {
     let mut exhaustive = crongen::exhaustive_single_items();
     exhaustive.extend(crongen::exhaustive_pairs());
     exhaustive.extend(crongen::boundary_numerics());
+    exhaustive.extend(crongen::near_step_family());
     let (n_random, n_bases): (u64, u64) = match tier {
         "quick" => (2_000, 200),
         _ => (100_000, 20_000),
